@@ -102,6 +102,14 @@ def gen_scenarios(spec, rng, n):
             sc["sched_seed"] = rng.randrange(2 ** 32)
         if len(sc["actors"]) > 1 and rng.random() < 0.4:
             sc["clients"] = "per_actor"        # several clients in one process: ids must still be fresh
+        if client == "rest" and rng.random() < 0.4:
+            # refreshable credentials + an expired token: google-auth answers the HTTP 401 by refreshing and RE-SENDING the
+            # prepared request below api-core's retry layer; the re-sent request must still carry the id
+            sc["credentials"] = "refreshable"
+            for a in sc["actors"]:
+                for op in a["ops"]:
+                    if op.get("kind") == "unary" and rng.random() < 0.4:
+                        op["server"].insert(0, {"code": "UNAUTHENTICATED", "lat": 0.0})
         if client == "async" and len(sc["actors"]) > 1 and rng.random() < 0.2:
             # fault: one caller's task is cancelled at an arbitrary instant (possibly between population and send)
             sc["cancels"] = [{"actor": rng.randrange(len(sc["actors"])), "at": rng.choice([0.0, 0.001, 0.004, 0.02, 0.1])}]
